@@ -61,7 +61,7 @@ func record(n int, seed int64) {
 			its = append(its, s)
 		}
 		hist := []rt.Event{{"ev": "reset", "kind": kind, "dir": dir, "trk": trk, "hard": hard, "soft": soft,
-			"credit": credit, "blocking": blk, "api": api}}
+			"credit": credit, "blocking": blk, "api": api, "rec_n": n, "rec_seed": seed, "rec_index": h}}
 		var mu sync.Mutex
 		nextID := 0
 		newID := func() int { nextID++; return nextID } // callers hold mu
@@ -124,6 +124,7 @@ func record(n int, seed int64) {
 		}
 		{ // adder
 			r := rand.New(rand.NewSource(rng.Int63()))
+			burst := rng.Intn(4) // 1: Close right after the last Add; 2: some Adds followed at once by a removal
 			clients.Add(1)
 			go func() {
 				defer clients.Done()
@@ -135,6 +136,13 @@ func record(n int, seed int64) {
 					mu.Unlock()
 					v = v + "a" + fmt.Sprint(j) // distinct whatever ids interleave
 					do("add", v, func() string { return c.add(v) })
+					// bursts: a second operation back to back, while the calls woken by the Add are on their way
+					switch {
+					case burst == 1 && j == m-1:
+						do("close", "", c.close)
+					case burst == 2 && r.Intn(2) == 0:
+						do("popn", "", func() string { return c.pop("n") })
+					}
 				}
 			}()
 		}
